@@ -451,7 +451,24 @@ ADDENDA2 = {
             "them; texts that start with a byte order mark or have names that are not in "
             "Unicode NFC."),
 }
-for _k, (_a, _b) in ADDENDA2.items():
+ADDENDA3 = {
+    "C05": ("", " A comment that is opened and never closed (text ending in a line end or "
+            "not) is one of the faults."),
+    "C09": ("", " Commented labels end in END / End / end / eNd."),
+    "C11": ("; containers as the loaders return them (six labels x five loaders: times with "
+            "zone offsets, placeholders, quantities, sets) x every way of copying", ""),
+    "C12": ("", " An assignment may share its name with a block of the same module."),
+    "C13": ("; the same encoder handed to pvl.new.dumps / pvl.new.dump between the calls", ""),
+    "C15": ("; mixed wiring: pvl.loads with a strict grammar= and a decoder= built around a "
+            "grammar with a larger character set (four combinations x 400 code points x 24 "
+            "positions in the quick tier)", ""),
+    "C16": ("; modules of both container families (pvl.load and pvl.new.load results) on one "
+            "encoder", ""),
+    "C20": ("", " 26 fixed texts on which the dialects disagree (the Omni row alone failing "
+            "included) are validated alone and in company and mixed into generated runs."),
+    "C02": ("; the un-budgeted pvl.loads runs under a CPU-time limit", ""),
+}
+for _k, (_a, _b) in list(ADDENDA2.items()) + list(ADDENDA3.items()):
     _o = ADDENDA.get(_k, ("", ""))
     ADDENDA[_k] = (_o[0] + _a, _o[1] + _b)
 
